@@ -62,10 +62,27 @@ class MetaPool(object):
 
     def sig(self, params, fresh=False):
         from sigtools import signatures
-        f = sigs.make_func(self.decorate(params), name='fn%d' % next(_fn_counter),
-                           globs=self.globs, future=self.future,
-                           ret=self.rnd.choice(self.anns) if self.rnd.random() < 0.3 else None)
-        return signatures.signature(f)
+        from .sigutil import plain_copy
+        rnd = self.rnd
+        params = self.decorate(params)
+        ret = rnd.choice(self.anns) if rnd.random() < 0.3 else None
+        # where the signature comes from: a function (upgraded annotations available), a class or a
+        # callable instance (annotations present but no code object to upgrade them from), or a plain
+        # inspect.Signature handed over by the caller (deprecated, upgraded on the fly)
+        origin = rnd.choice(self.ORIGINS)
+        name = 'fn%d' % next(_fn_counter)
+        if origin in ('class', 'instance'):
+            first = ('self', PO if sigs.has_kind(params, PO) else PK, None, None)
+            f = sigs.make_func((first,) + tuple(params), name=name, globs=self.globs, future=self.future, ret=ret)
+            K = type('K' + name, (object,), {'__init__' if origin == 'class' else '__call__': f})
+            return signatures.signature(K if origin == 'class' else K())
+        f = sigs.make_func(params, name=name, globs=self.globs, future=self.future, ret=ret)
+        s = signatures.signature(f)
+        if origin == 'plain':
+            return plain_copy(s)
+        return s
+
+    ORIGINS = ('function',) * 7 + ('class', 'instance', 'plain')
 
 
 def call(fn, *a, **k):
